@@ -361,7 +361,7 @@ func genC20(t *rapid.T) (C20Case, map[string]bool) {
 	for i := 0; i < nt; i++ {
 		c.Types = append(c.Types, genC20Fields(t, 2, fmt.Sprintf("t%d", i)))
 	}
-	nsteps := rapid.IntRange(8, scale(40, 120)).Draw(t, "nsteps")
+	nsteps := rapid.IntRange(8, scale(40, 80)).Draw(t, "nsteps")
 	for i := 0; i < nsteps; i++ {
 		if rapid.IntRange(0, 9).Draw(t, "isflood") == 0 {
 			n := rapid.SampledFrom([]int{1, 50, 400, 1001, 1500}).Draw(t, "floodn")
